@@ -50,6 +50,7 @@ type HarnessResult struct {
 	Stubs      map[string]int     `json:"stubs_hit,omitempty"`
 	Samples    []string           `json:"samples"`
 	Violations []Violation        `json:"violations,omitempty"`
+	Witnesses  []Violation        `json:"witnesses,omitempty"`
 	InitSkip   []string           `json:"init_skipped,omitempty"`
 	Notes      map[string]int     `json:"paths_by_note,omitempty"`
 	NoteErr    map[string]int     `json:"errors_by_note,omitempty"`
@@ -344,7 +345,7 @@ func runHarness(workers []*Worker, name string, fn *ssa.Function) HarnessResult 
 		PathsBudg: st.PathsBudget, Reached: st.ReachWitness, Asserts: st.AssertsChecked, AssertsSym: st.AssertsSymbolic,
 		Branches: st.Branches, Forks: st.Forks, Steps: st.Steps, Queries: st.Queries, QSat: st.QSat, QUnsat: st.QUnsat, QUnknown: st.QUnknown,
 		SolverS: st.SolverTime.Seconds(), Cross: st.CrossChecks, CrossBad: st.CrossDisagree, WallS: time.Since(t0).Seconds(),
-		Errors: st.Errors, Stubs: st.Stubs, Samples: st.Samples, Violations: st.Violations, Notes: st.Notes, NoteErr: st.NoteErr, NoteSolver: st.NoteSolver}
+		Errors: st.Errors, Stubs: st.Stubs, Samples: st.Samples, Violations: st.Violations, Witnesses: st.Witnesses, Notes: st.Notes, NoteErr: st.NoteErr, NoteSolver: st.NoteSolver}
 	for f := range st.Funcs {
 		r.Funcs = append(r.Funcs, f)
 	}
@@ -411,6 +412,7 @@ func (w *Worker) runPathOnce(fn *ssa.Function, item WorkItem, retry bool) (bool,
 	w.loopBound = 0
 	w.absFloatArith = false
 	w.splitDiv = false
+	w.usedSched = false
 	w.boundedChans = false
 	w.whereLog = w.whereLog[:0]
 	w.opaqueParseFloat = false
@@ -458,12 +460,25 @@ func (w *Worker) runPathOnce(fn *ssa.Function, item WorkItem, retry bool) (bool,
 		// reachability witness: make sure this completed path is really feasible
 		ex.mu.Lock()
 		need := ex.stats.ReachWitness == 0
+		wantWitness := len(ex.stats.Witnesses) < 3 && w.sched == nil && !w.usedSched
 		ex.mu.Unlock()
-		if need {
+		if need || wantWitness {
 			func() {
 				defer func() { recover() }()
-				if v, _ := p.check(trueT2(), false); v != Sat {
-					p.reached = false
+				v, _ := p.check(trueT2(), true)
+				if v != Sat {
+					if need {
+						p.reached = false
+					}
+					return
+				}
+				if wantWitness && len(p.nondets) > 0 {
+					wit := Violation{Harness: ex.harness, Kind: "witness", Msg: "completed path", Trail: trailString(p.taken), Vector: p.vectorFrom(w.lastVals)}
+					ex.mu.Lock()
+					if len(ex.stats.Witnesses) < 3 {
+						ex.stats.Witnesses = append(ex.stats.Witnesses, wit)
+					}
+					ex.mu.Unlock()
 				}
 			}()
 		}
